@@ -217,6 +217,12 @@ func canonFile(f *ast.File) string {
 	return `(pkg "` + esc(f.Name.Name) + `") ` + dumpImports(f.Imports, true) + " (tree " + d.sb.String() + ")"
 }
 
+func canonFileNoObj(f *ast.File) string {
+	d := &dumper{canon: true, strip: true, noObj: true}
+	d.val(reflect.ValueOf(f))
+	return `(pkg "` + esc(f.Name.Name) + `") ` + dumpImports(f.Imports, true) + " (tree " + d.sb.String() + ")"
+}
+
 // canonOfFile parses a Go file and prints its canonical tree with redundant
 // parentheses removed (go/printer adds them where precedence requires).
 func canonOfFile(path string) string {
